@@ -560,10 +560,12 @@ func c12EntryPoints(r *Run, negSevs []int) (term, other []c12EP) {
 
 func runC12(r *Run) {
 	r.Coq("Require Import Verif.Model.Base Verif.Model.Terminate Verif.Corr.C12.", "case", "ok")
-	r.Rule = "one child process per cell: {entry point that can carry Panic/Fatal (Entry methods by reflection, LogAttrs/Logit/Log with both severities, package functions)} x {no-interrupt} x {interrupt-always} x {logger level} x {json, logfmt, colour} x {production = harness binary, testing = go test -c binary}; negative cells: every other severity incl. registered ones through every entry point that carries it; quick = seeded sample, thorough = full matrix; every third cell after one, every third after two Panic calls on the same logger that the program recovered from; observed: exit status, recovered panic value, journal order, destination files; non-trivial = admitted Panic/Fatal; distinct by cell"
+	r.Rule = "one child process per cell: {entry point that can carry Panic/Fatal (Entry methods by reflection, LogAttrs/Logit/Log with both severities, package functions)} x {no-interrupt} x {interrupt-always} x {logger level} x {json, logfmt, colour} x {production = harness binary, testing = go test -c binary}; negative cells: every other severity incl. registered ones (among them levels treated as Panic and as Fatal, and negative values) through every entry point that carries it; quick = seeded sample, thorough = full matrix; every third cell after one, every third after two Panic calls on the same logger that the program recovered from; observed: exit status, recovered panic value, journal order, destination files; non-trivial = admitted Panic/Fatal; distinct by cell"
 	bins := c12FindBins()
-	custom := []*c12Custom{{13, 4}, {12, -1}, {-5, -1}}
-	negSevs := []int{2, 3, 4, 5, 6, 7, 8, 9, 10, 11, 13, 12, -5}
+	// registered severities: treated as Info, not treated, negative, and treated as Panic / as Fatal (for admission
+	// only: they are not Panic or Fatal and never terminate)
+	custom := []*c12Custom{{13, 4}, {12, -1}, {-5, -1}, {14, 0}, {15, 1}, {-7, 1}}
+	negSevs := []int{2, 3, 4, 5, 6, 7, 8, 9, 10, 11, 13, 12, -5, 14, 15, -7}
 	termEPs, otherEPs := c12EntryPoints(r, negSevs)
 	r.Extra["entry_points_carrying_panic_fatal"] = len(termEPs)
 	r.Extra["entry_points_other"] = len(otherEPs)
@@ -649,6 +651,13 @@ func runC12(r *Run) {
 		}
 		for n := r.N(90, 0); n > 0; n-- {
 			cells = append(cells, negatives[r.R.Intn(len(negatives))])
+		}
+		// always in: the registered severities treated as Panic / Fatal and the negative ones, armed (production, and
+		// go test with interrupt-always), on an Always logger
+		for _, c := range negatives {
+			if cu := customOf(c.Sev); cu != nil && (cu.Treat == 0 || cu.Treat == 1 || cu.V < 0) && c.Level == 8 && (c.Mode == "production" || c.IntAlways) {
+				cells = append(cells, c)
+			}
 		}
 	}
 	for i := range cells {
